@@ -649,6 +649,25 @@ def materialize(ds, dirname, rng=None):
     return paths, cpath
 
 
+def same_basename(paths, cpath, dirname):
+    """experiments usually keep one file name in different directories (expA/fcst.nc expB/fcst.nc [-c clim/fcst.nc]): move the
+    written files there when they all have the same extension; returns (paths, cpath, moved?)"""
+    import shutil
+    allp = list(paths) + ([cpath] if cpath else [])
+    if len(allp) < 2 or len(set(os.path.splitext(p_)[1] for p_ in allp)) != 1:
+        return paths, cpath, False
+    newp = []
+    for i_, p_ in enumerate(allp):
+        sub = os.path.join(dirname, "exp%d" % i_)
+        os.makedirs(sub, exist_ok=True)
+        q_ = os.path.join(sub, "fcst" + os.path.splitext(p_)[1])
+        shutil.move(p_, q_)
+        newp.append(q_)
+    if cpath:
+        return newp[:-1], newp[-1], True
+    return newp, None, True
+
+
 def ds_summary(ds):
     """Small description of a dataset for evidence samples."""
     out = []
